@@ -111,18 +111,22 @@ func genFileContent(r *Rng, ndocs int, base int) string {
 	return b.String()
 }
 
-var filePaths = []string{"c/templates/a.yaml", "c/templates/b.yaml", "c/templates/z.yaml", "c/templates/sub/deep.yaml", "c/templates/_helpers.tpl", "c/templates/_x.yaml", "c/charts/s/templates/a.yaml", "c/charts/s/templates/_p.tpl", "c/templates/A.yaml", "c/templates/a.yml", "c/templates/tests/t.yaml", "c/templates/0.yaml"}
+var filePaths = []string{"c/templates/a.yaml", "c/templates/b.yaml", "c/templates/z.yaml", "c/templates/sub/deep.yaml", "c/templates/_helpers.tpl", "c/templates/_x.yaml", "c/charts/s/templates/a.yaml", "c/charts/s/templates/_p.tpl", "c/templates/A.yaml", "c/templates/a.yml", "c/templates/tests/t.yaml", "c/templates/0.yaml", "c/templates/_internal/cm.yaml", "c/charts/s/templates/_h/_p.yaml", "c/charts/s/templates/_h/x.yaml"}
 
 func genFiles(r *Rng) map[string]string {
 	files := map[string]string{}
 	nf := 1 + r.Intn(5)
 	big := r.Chance(12)
+	huge := r.Chance(2)
 	base := 0
 	for i := 0; i < nf; i++ {
 		p := Pick(r, filePaths)
 		nd := r.Intn(5)
 		if big {
 			nd = 8 + r.Intn(25)
+		}
+		if huge && i == 0 {
+			nd = 129 + r.Intn(140) // document indices past one signed byte
 		}
 		if r.Chance(8) {
 			files[p] = Pick(r, []string{"", "  \n", "\n\n"})
